@@ -133,11 +133,20 @@ def materialise(sc, root):
                 front.append("append: [a1.md]")
         # names are chosen so that the order given on the command line is NOT the lexicographic order
         name = f"{'zyxw'[i]}-d{i + 1}." + ("md" if doc["fmt"] == "md" else "t")
-        path = os.path.join(docs_dir, name)
+        # with a directory argument the last document lives in a nested directory
+        sub = os.path.join(docs_dir, "nested", "deeper") if sc.get("dirarg") and i == len(sc["docs"]) - 1 and i > 0 else docs_dir
+        os.makedirs(sub, exist_ok=True)
+        path = os.path.join(sub, name)
         with open(path, "wb") as f:
             f.write(render_doc(doc, doc["tests"], front))
         paths.append(path)
     argv = list(paths)
+    if sc.get("dirarg"):
+        # files that are no test documents must be ignored
+        for decoy, text in (("README.txt", "not a test\n"), ("notes.rst", "$ echo no\n"), ("script.sh", "exit 3\n")):
+            with open(os.path.join(docs_dir, decoy), "w") as f:
+                f.write(text)
+        argv = [docs_dir]
     if sc["tcli"] != NONE:
         argv += ["--timeout-seconds", str(sc["tcli"])]
     if sc["noshell"]:
@@ -241,6 +250,13 @@ def observe(sc, want_summary=False, keep=False):
             res.append([kinds.get(x, "none") for x in ids])
             # the segment of the log that belongs to this document: greedy while ids belong to it
             seg = []
+            if sc.get("dirarg"):
+                # the order among the documents of a directory is unspecified: attribute log entries by their ids
+                seg = [x for x in ran_all if x in ids]
+                dupes += len(seg) - len(set(seg))
+                ran.append([x for x in seg if x not in det_ids])
+                pos = len(ran_all) if i == nd - 1 else pos
+                continue
             while pos < len(ran_all) and ran_all[pos] in ids and (ran_all[pos] not in seg or ran_all[pos] in det_ids):
                 if ran_all[pos] in seg:
                     dupes += 1      # a detached command that ran twice
